@@ -18,9 +18,90 @@ def race_stress(res, work, tier):
     return True, bad, out
 
 
+def interleaved(res, work, tier, seed=1):
+    """Deploys of the owner-changing kind INTERLEAVED on the virtual clock: a (rollout) deploy that is still waiting for its
+    targets while the pair it holds / wants is released and claimed by another service.  After every step the saved state is
+    observed; corr.M4corr.c05_step_ok's predicate (ServiceMap.pair_owned_once) must hold of every observation."""
+    import random
+    import m4
+    import m5
+    import m4x
+    import forced
+    H, SEC = m5.H, m5.SEC
+    rnd = random.Random(seed * 977 + 5)
+    h1, h2 = b"a.example.com", b"b.example.com"
+    late = ["refused", "refused", "ok"]       # healthy at the third probe (~2 s)
+
+    def dep(cid, name, host, targets, asyn=False, probes=None, prefixes=None):
+        d = forced.dep(cid, targets, asyn=asyn, name=name, host=host)
+        d["prefixes"] = [H(p) for p in (prefixes or [])]
+        for t in d["targets"]:
+            t["probes"] = probes or ["ok"]
+        return d
+
+    def obs(k):
+        return {"op": "observe", "id": "o%d" % k}
+    scenarios = []
+    n = 12 if tier == "quick" else 120
+    k = 0
+    while len(scenarios) < n:
+        k += 1
+        tn = lambda: [b"u%d:80" % rnd.randrange(10 ** 6)]
+        shape = k % 4
+        pre = rnd.choice([[], [b"/api"], [b"/api", b"/x"]])
+        steps = [dep("c1", b"A", h1, tn(), prefixes=pre), obs(1)]
+        gap = {"op": "sleep", "ns": rnd.choice([1, SEC // 2, SEC])}
+        if shape == 0:      # rollout deploy of A waits; A is removed; B claims A's pair; the rollout deploy completes
+            steps += [{"op": "rollout_deploy", "id": "c2", "async": True, "name": H(b"A"), "targets": [{"name": H(tn()[0]), "probes": late}],
+                       "deploy_timeout": 5 * SEC, "drain_timeout": SEC}, gap,
+                      {"op": "remove", "id": "c3", "async": False, "name": H(b"A")}, obs(2), dep("c4", b"B", h1, tn(), prefixes=pre), obs(3)]
+        elif shape == 1:    # ... A is moved to another host instead of removed
+            steps += [{"op": "rollout_deploy", "id": "c2", "async": True, "name": H(b"A"), "targets": [{"name": H(tn()[0]), "probes": late}],
+                       "deploy_timeout": 5 * SEC, "drain_timeout": SEC}, gap,
+                      dep("c3", b"A", h2, tn(), prefixes=pre), obs(2), dep("c4", b"B", h1, tn(), prefixes=pre), obs(3)]
+        elif shape == 2:    # a redeploy of A waits; A is removed; B claims the pair; the redeploy completes
+            steps += [dep("c2", b"A", h1, tn(), asyn=True, probes=late, prefixes=pre), gap,
+                      {"op": "remove", "id": "c3", "async": False, "name": H(b"A")}, obs(2), dep("c4", b"B", h1, tn(), prefixes=pre), obs(3)]
+        else:               # a first deploy of C waits for the pair B takes meanwhile
+            steps += [dep("c2", b"C", h2, tn(), asyn=True, probes=late, prefixes=pre), gap, dep("c4", b"B", h2, tn(), prefixes=pre), obs(2)]
+        steps += [{"op": "sleep", "ns": 4 * SEC}, obs(4), {"op": "sleep", "ns": SEC}, obs(5)]
+        scenarios.append({"steps": steps})
+    ok, gout, outs = m5.run_scenarios(work, scenarios)
+    if not ok:
+        return False, [], gout
+    terms, where = [], []
+    for j, o in enumerate(outs):
+        for r in o["results"]:
+            if r.get("op") == "observe" and isinstance(r["state_file"], list):
+                terms.append("(%s : list snap_svc)" % list_lit([m4.snap_term(sv) for sv in r["state_file"]]))
+                where.append((j, r["id"]))
+    vals = m4x.coq_map(work, "From KP Require Import model.Base model.ServiceMap corr.M4corr.", "", terms,
+                       "fun l => pair_owned_once (snap_table l)", "C05il", shard=4)
+    bad = [{"scenario": scenarios[j], "observation": oid, "what": "two services own one (host, path prefix) pair in the saved state",
+            "results": [r for r in outs[j]["results"] if r.get("op") != "observe"],
+            "replay_note": "scenario steps for harness/sim_test.go (TestVerifSim, virtual clock)"}
+           for (j, oid), v in zip(where, vals) if not v]
+    cmds = {}
+    for o in outs:
+        for r in o["results"]:
+            if "result" in r:
+                key = "%s:%s" % (r["op"], r["result"])
+                cmds[key] = cmds.get(key, 0) + 1
+    res.coverage["interleaved_deploys"] = {"scenarios": len(outs), "observations_checked": len(terms), "command_mix": cmds,
+                                           "observations_with_a_pair_owned_twice": len(bad)}
+    return True, bad, gout
+
+
+def both(res, work, tier):
+    ok, bad, out = interleaved(res, work, tier)
+    if not ok or bad:
+        return ok, bad, out
+    return race_stress(res, work, tier)
+
+
 def run(tier, seed):
     return run_property(
         "C05", tier, seed, ["C05.v", "M4link.v"], ["props/C05.vo", "props/M4link.vo"],
         profile={"deploy": 14, "deploy_fail": 2, "remove": 5, "restart": 2, "rollout_deploy": 1, "rollout_set": 0,
                  "rollout_stop": 0, "pause": 1, "stop": 1, "resume": 1},
-        monitor="c05_ok h", n_quick=40, n_thorough=600, extra=race_stress)
+        monitor="c05_ok h", n_quick=40, n_thorough=600, extra=both)
